@@ -8,5 +8,5 @@ import Corro.Props.C13
 #print axioms Corro.SubLife.abrupt_is_discarded
 #print axioms Corro.SubLife.no_stale_serving
 #print axioms Corro.SubLife.restored_rows_eq_query_partial
-#print axioms Corro.SubLife.unsubscribed_never_served_again
+#print axioms Corro.SubLife.restored_stale_unsub_counterexample
 #print axioms Corro.SubLife.restored_stale_late_match_counterexample
